@@ -245,6 +245,9 @@ func (r *Run) Finish() {
 	newViol := 0
 	var knownHit []string
 	replayDir := filepath.Join(Dir(), "replays")
+	if d := os.Getenv("VERIF_REPLAY_DIR"); d != "" {
+		replayDir = d // runs against scratch copies (mutants) keep their witnesses apart from those of /repo
+	}
 	_ = os.MkdirAll(replayDir, 0o755)
 	for i, sig := range r.violOrder {
 		v := r.viol[sig]
